@@ -8,7 +8,7 @@ From Coq Require Import String.
 From Coq Require Import ZArith NArith List Bool.
 Require Import Webob.Lib.Val Webob.Lib.PyStr Webob.Lib.C15_Utf8 Webob.Gen.C15_tables Webob.Model.C15_Scan
                Webob.Model.C15_CookieJar Webob.Spec.C15_JarSpec
-               Webob.Proofs.C15_scan Webob.Proofs.C15_request Webob.Proofs.C15_response.
+               Webob.Proofs.C15_scan Webob.Proofs.C15_request Webob.Proofs.C15_response Webob.Proofs.C15_openquote.
 Import ListNotations.
 Local Open Scope N_scope.
 
@@ -115,6 +115,43 @@ Theorem C15_outside_class_refuted :
   cookie_pairs (rrun utf8_encode ops (Some h)) <> ref_rrun utf8_encode ops (cookie_pairs (Some h)).
 Proof. exact outside_class_witness. Qed.
 Print Assumptions C15_outside_class_refuted.
+
+(* The same, where the pre-existing header ENDS inside the quoted string (header  x=Q ; cookies[A] = "a b" gives the
+   header  x=Q; A=Qa bQ ): every premise of C15_request_jar but [wf_jar] holds, the assignment is accepted, and afterwards
+   the cookie just assigned is not in the jar while the untouched x reads "; A=" instead of "".  Replayed on the
+   implementation this is the finding  request-jar:unbalanced-quote-in-existing-header  (harness class 'Q'). *)
+Theorem C15_open_quote_refuted :
+  exists st ops, forallb (op_ok utf8_encode) ops = true /\
+    cookie_pairs (rrun utf8_encode ops st) <> ref_rrun utf8_encode ops (cookie_pairs st) /\
+    (exists k v, ops = [RSet (Some k) (Some v)] /\ has_key k (cookie_pairs (rrun utf8_encode ops st)) = false) /\
+    (exists k, has_key k (cookie_pairs st) = true /\
+               lookup k (cookie_pairs (rrun utf8_encode ops st)) <> lookup k (cookie_pairs st) /\
+               lookup k (ref_rrun utf8_encode ops (cookie_pairs st)) = lookup k (cookie_pairs st)).
+Proof. exact open_quote_refutes. Qed.
+Print Assumptions C15_open_quote_refuted.
+
+(* the witness spelled out: header, header after the assignment, pairs and text read back, reference pairs *)
+Theorem C15_open_quote_witness :
+  forallb (op_ok utf8_encode) oq_ops = true /\
+  cookie_pairs (Some oq_header) = [(H "78"%string, [])] /\
+  rrun utf8_encode oq_ops (Some oq_header) = Some (H "783d223b20413d2261206222"%string) /\
+  cookie_pairs (rrun utf8_encode oq_ops (Some oq_header)) = [(H "78"%string, H "3b20413d"%string)] /\
+  has_key (H "41"%string) (cookie_pairs (rrun utf8_encode oq_ops (Some oq_header))) = false /\
+  ref_rrun utf8_encode oq_ops (cookie_pairs (Some oq_header)) = [(H "78"%string, []); (H "41"%string, H "612062"%string)] /\
+  request_cookies utf8_decode (rrun utf8_encode oq_ops (Some oq_header)) = Ok [(H "78"%string, H "3b20413d"%string)].
+Proof. exact open_quote_witness. Qed.
+Print Assumptions C15_open_quote_witness.
+
+(* … and where it ends inside a backslash escape (header  x=\ ; cookies[A] = 1  gives  x=\; A=1 ): A is stored, the
+   untouched x reads ";" instead of "" *)
+Theorem C15_dangling_escape_refuted :
+  forallb (op_ok utf8_encode) de_ops = true /\
+  cookie_pairs (Some de_header) = [(H "78"%string, [])] /\
+  rrun utf8_encode de_ops (Some de_header) = Some (H "783d5c3b20413d31"%string) /\
+  cookie_pairs (rrun utf8_encode de_ops (Some de_header)) = [(H "78"%string, H "3b"%string); (H "41"%string, H "31"%string)] /\
+  ref_rrun utf8_encode de_ops (cookie_pairs (Some de_header)) = [(H "78"%string, []); (H "41"%string, H "31"%string)].
+Proof. exact dangling_escape_witness. Qed.
+Print Assumptions C15_dangling_escape_refuted.
 
 (* ====================================================================== response side *)
 
